@@ -487,7 +487,10 @@ public:
     if (graphidToE_.size() < newGraphEdge + 1)
       graphidToE_.resize(newGraphEdge + 1);
     graphidToE_.at(newGraphEdge) = edgeObject;
-    EToGraphid_[edgeObject] = newGraphEdge;
+    // an edge without object is not registered (a null key would be counted as
+    // an edge, shared by all such edges and dereferenced by the copy constructor)
+    if (edgeObject != 00)
+      EToGraphid_[edgeObject] = newGraphEdge;
   }
 
 
